@@ -51,7 +51,7 @@ def run(ctx):
             return True
         return e["post"]["exit"] == "cont" and e["post"]["ctx"] != e["pre"]["ctx"]
     hc.summarize(ctx, lines + tl, nontrivial, "evaluations = behaviour steps (real host calls) + threshold / derivation function calls; non-trivial = the step changed the account, or a function case")
-    hc.judge(ctx, lines + tl, "c09", "footprint incoherent / FULL changed state / wrong threshold", 800 if quick else 2500, 5 if quick else 14)
+    hc.judge(ctx, lines + tl, "c09", "footprint incoherent / FULL changed state / wrong threshold", 330 if quick else 2500, 4 if quick else 14)
     if getattr(ctx, "selftest", False) or not quick:
         def corrupt(e):
             if e["ev"] == "Thr":
